@@ -23,11 +23,12 @@ import (
 )
 
 type c20Case struct {
-	origin string
-	pkg    c20Pkg
-	feats  map[string]bool
-	res    *c20Result
-	shrunk map[string]c20Pkg // per failing class
+	origin  string
+	pkg     c20Pkg
+	feats   map[string]bool
+	res     *c20Result
+	shrunk  map[string]c20Pkg // per failing class
+	perDecl bool              // the per-declaration variants were evaluated
 }
 
 // Cases are evaluated in re-exec'ed worker processes: trim.Files can recurse without bound
@@ -40,6 +41,7 @@ type c20Job struct {
 	Pkg     c20Pkg `json:"pkg"`
 	PerDecl bool   `json:"perDecl"`
 	Shrink  bool   `json:"shrink"`
+	Budget  int    `json:"budget"` // pipeline runs the minimiser may spend per failing class
 }
 
 type c20WireFail struct {
@@ -68,7 +70,7 @@ func c20Worker(spec string) {
 	if len(parts) != 2 {
 		os.Exit(2)
 	}
-	debug.SetMaxStack(40 << 20)
+	debug.SetMaxStack(16 << 20)
 	b, err := os.ReadFile(parts[0])
 	if err != nil {
 		os.Exit(2)
@@ -99,7 +101,7 @@ func c20Worker(spec string) {
 			w.Shrunk = map[string]c20Pkg{}
 			for _, fl := range r.fails {
 				if _, ok := w.Shrunk[fl.class]; !ok {
-					w.Shrunk[fl.class] = c20Shrink(j.Pkg, fl.class, 60)
+					w.Shrunk[fl.class] = c20Shrink(j.Pkg, fl.class, j.Budget)
 				}
 			}
 		}
@@ -130,6 +132,8 @@ func c20RunWorker(c *Cfg, jobs []c20Job, perCase time.Duration) (res map[int]c20
 	exe, _ := os.Executable()
 	cmd := exec.Command(exe, "C20", "-out", filepath.Join(c.Out, fmt.Sprintf("c20-w%d.dir", id)), "-replay", "worker:"+in+":"+out)
 	defer os.RemoveAll(filepath.Join(c.Out, fmt.Sprintf("c20-w%d.dir", id)))
+	// the work of a worker is sequential: keep the Go runtime of each child small
+	cmd.Env = append(os.Environ(), "GOMAXPROCS=2")
 	var stderr bytes.Buffer
 	cmd.Stderr = &c20tail{max: 4000, buf: &stderr}
 	cmd.Stdout = nil
@@ -281,13 +285,24 @@ func c20ShrinkCrash(c *Cfg, p c20Pkg, maxRuns int) c20Pkg {
 }
 
 func c20RunCases(c *Cfg, cases []*c20Case, perDecl bool) {
-	nw := 12
-	if len(cases) < nw*4 {
-		nw = 1 + len(cases)/4
+	c20RunCasesOpt(c, cases, perDecl, true)
+}
+
+// c20RunCasesOpt: report=false only fills in cases[i].res (used by the CLI family, which
+// needs the library result of its candidates but reports its own predicates).
+func c20RunCasesOpt(c *Cfg, cases []*c20Case, perDecl, report bool) {
+	// one worker per ~100 cases (starting a worker costs about a CPU second), at most 12
+	nw := 1 + len(cases)/100
+	if nw > 12 {
+		nw = 12
 	}
+	// the per-declaration variants multiply the cost of a case by the number of removed
+	// declarations: the quick tier evaluates them on every 4th case only
+	every := c.Pick(4, 1)
 	chunks := make([][]c20Job, nw)
 	for i, cs := range cases {
-		chunks[i%nw] = append(chunks[i%nw], c20Job{I: i, Pkg: cs.pkg, PerDecl: perDecl, Shrink: true})
+		cs.perDecl = perDecl && i%every == 0
+		chunks[i%nw] = append(chunks[i%nw], c20Job{I: i, Pkg: cs.pkg, PerDecl: cs.perDecl, Shrink: report, Budget: c.Pick(25, 60)})
 	}
 	var mu sync.Mutex
 	var wg sync.WaitGroup
@@ -340,7 +355,9 @@ func c20RunCases(c *Cfg, cases []*c20Case, perDecl bool) {
 		if cs.res == nil {
 			cs.res = &c20Result{skipped: "not-run"}
 		}
-		c20Report(c, cs)
+		if report {
+			c20Report(c, cs)
+		}
 	}
 }
 
@@ -395,6 +412,9 @@ func c20Report(c *Cfg, cs *c20Case) {
 		"removals-implied": {"removed-alone-changes", "removed-alone-unloadable", "readded-alone-changes"},
 	}
 	for _, pred := range c20predicates {
+		if pred == "removals-implied" && !cs.perDecl {
+			continue
+		}
 		var hit []c20Fail
 		for _, cl := range groups[pred] {
 			hit = append(hit, failed[cl]...)
@@ -508,11 +528,11 @@ func c20Tag(class string, p c20Pkg) string {
 // ---- generated packages ---------------------------------------------------------------
 
 func c20Generated(c *Cfg, r *Rng) {
-	n := c.Pick(1500, 10000)
+	n := c.Pick(250, 10000)
 	if c.Focus {
-		n = c.Pick(3000, 10000)
+		n = c.Pick(1500, 10000)
 	}
-	batch := 500
+	batch := 2000
 	for done := 0; done < n; done += batch {
 		var cases []*c20Case
 		for i := 0; i < batch && done+i < n; i++ {
@@ -538,7 +558,7 @@ func c20Seeds(c *Cfg, r *Rng) {
 			}
 		}
 		cases = append(cases, &c20Case{origin: "seed:" + s.name, pkg: p, feats: map[string]bool{"seed-unmodified": true}})
-		nm := c.Pick(6, 25)
+		nm := c.Pick(1, 25)
 		for k := 0; k < nm; k++ {
 			sub := r.Sub()
 			q, ok := c20MutateValues(sub, p, 1+sub.Intn(3))
@@ -554,7 +574,7 @@ func c20Seeds(c *Cfg, r *Rng) {
 			}
 			cases = append(cases, &c20Case{origin: fmt.Sprintf("seedmut:%s:%d", s.name, k), pkg: q, feats: feats})
 		}
-		if q, ok := c20Resplit(r.Sub(), p); ok {
+		if q, ok := c20Resplit(r.Sub(), p); ok && (c.Thorough() || len(cases)%3 == 0) {
 			cases = append(cases, &c20Case{origin: "seedsplit:" + s.name, pkg: q, feats: map[string]bool{"seed-resplit": true}})
 		}
 	}
